@@ -36,8 +36,15 @@ def _corrupt_ctx(e):
     return False
 
 
-STATEFUL = {"Trace_Ctx"}
-CORRUPTORS = {"Trace_Lang": _corrupt_lang, "Trace_Ctx": _corrupt_ctx}
+STATEFUL = {"Trace_Ctx", "Trace_Reg"}
+def _corrupt_reg(e):
+    if e.get("ev") == "add" and e["res"] == "ok":
+        e["res"] = "FieldRedefinition"
+        return True
+    return False
+
+
+CORRUPTORS = {"Trace_Lang": _corrupt_lang, "Trace_Ctx": _corrupt_ctx, "Trace_Reg": _corrupt_reg}
 
 
 def _vc_lang(v):
@@ -58,7 +65,14 @@ def _vc_hist(v):
     return False
 
 
-VECTOR_CORRUPTORS = {"replay": _vc_lang, "replay-hist": _vc_hist}
+def _vc_reg(v):
+    if v.get("res"):
+        v["res"][0] = "ListRedefinition" if v["res"][0] == "ok" else "ok"
+        return True
+    return False
+
+
+VECTOR_CORRUPTORS = {"replay": _vc_lang, "replay-hist": _vc_hist, "replay-reg": _vc_reg}
 
 SH = dict(quick=1, thorough=8)
 
@@ -159,6 +173,20 @@ CHECKS = {
         assumptions=[],
         stages=[
             lang("nesting", "c13", 4000, 100000, ["--nctx", "2"], shards=SH),
+        ],
+    ),
+    "C16": dict(
+        level="model_checking",
+        rule="every sequence of <= MaxLen add_field/add_optional_field/add_function/add_list calls over colliding names "
+             "(x, x.y, x.y.z, X, xy, x_y) x types x optionality; each history is replayed on a SchemeBuilder, then the built scheme is "
+             "probed (get_field, get_function, counts, orders, parse of `name` and `name()`) for 11 names incl. prefixes, extensions "
+             "and case variants; clone == and rebuild != are checked. Random histories of length 60 over a 40-name pool are "
+             "validated by Trace_Reg.",
+        exhaustive=True,
+        assumptions=[],
+        stages=[
+            mc("registrations", "MC_C16.tla", dict(quick="MC_C16_quick.cfg", thorough="MC_C16_thorough.cfg"), replay_cmd="replay-reg"),
+            trace("random-registrations", "Trace_Reg", ["gen-reg", "--len", "60"], 30, 1500, shards=SH),
         ],
     ),
     "C17": dict(
